@@ -207,6 +207,38 @@ let process (r : record) =
       end
   end
 
+(* ---- importer loop skeleton (coq/C09/ImportSkeleton.v), records "SKEL gc n from to ... RES err|ok k ids" ---- *)
+module S = C09_model
+let rec spos_of_bz (x : BZ.t) : S.positive =
+  if BZ.equal x BZ.one then S.XH
+  else if BZ.testbit x 0 then S.XI (spos_of_bz (BZ.shift_right x 1)) else S.XO (spos_of_bz (BZ.shift_right x 1))
+let sn_of_bz (x : BZ.t) : S.n = if BZ.sign x = 0 then S.N0 else S.Npos (spos_of_bz x)
+let rec bz_of_spos = function
+  | S.XH -> BZ.one | S.XO p -> BZ.shift_left (bz_of_spos p) 1 | S.XI p -> BZ.succ (BZ.shift_left (bz_of_spos p) 1)
+let bz_of_sn = function S.N0 -> BZ.zero | S.Npos p -> bz_of_spos p
+
+let skel_cases = ref 0
+let process_skel (toks : string list) =
+  incr skel_cases;
+  let dummy = { id = "skel" ^ string_of_int !skel_cases; stream = "skeleton"; hex = false; text = []; domain = false; digits = [];
+                toks = []; prs = []; fmt = []; parse = []; proj = []; wtext = None } in
+  match toks with
+  | gc :: n :: rest ->
+    let n = int_of_string n in
+    let rec take_ranges k l acc = if k = 0 then (List.rev acc, l) else
+        match l with a :: b :: t -> take_ranges (k - 1) t ((sn_of_bz (BZ.of_string a), sn_of_bz (BZ.of_string b)) :: acc)
+                   | _ -> failwith "bad SKEL" in
+    let (ranges, after) = take_ranges n rest [] in
+    let model = match S.expand_signal ranges (sn_of_bz (BZ.of_string gc)) with
+      | S.XOk (_, ids) ->
+        let l = List.sort compare (List.map (fun x -> BZ.to_int (bz_of_sn x)) ids) in
+        "ok " ^ String.concat " " (List.map string_of_int (List.length l :: l))
+      | S.XErr _ -> "err"
+      | S.XFuel -> "fuel" in
+    let go = match after with "RES" :: r -> String.concat " " r | _ -> "?" in
+    if go <> model then mismatch dummy "skeleton" (Printf.sprintf "ranges [%s] groupCount %s: go [%s] model [%s]" (String.concat " " (take (2 * n) rest)) gc go model)
+  | _ -> failwith "bad SKEL"
+
 (* ---- static tables ---- *)
 let check_tables (kws : (int * int list) list) (puncts : (int * int) list) (newsyms : int list list) (access : (int * int list) list) =
   let dummy = { id = "tables"; stream = "tables"; hex = false; text = []; domain = false; digits = []; toks = []; prs = []; fmt = [];
@@ -236,6 +268,7 @@ let () =
       | "NEWSYM", _ -> newsyms := fst (take_cps (rest ())) :: !newsyms
       | "ACCESS", _ -> (match rest () with k :: r -> access := (int_of_string k, fst (take_cps r)) :: !access | _ -> ())
       | "ENDTABLES", _ -> check_tables !kws !puncts (List.rev !newsyms) !access
+      | "SKEL", _ -> process_skel (rest ())
       | "CASE", _ ->
         (match rest () with
          | [id; stream; hex] ->
@@ -266,4 +299,5 @@ let () =
         r.proj <- (s, String.trim (String.sub line sp (String.length line - sp))) :: r.proj
       | _ -> ()   (* extra lines (IMPORT ..., ORIG ...) are for the python side *)
     done with End_of_file -> ());
+  Printf.printf "SKELETON %d\n" !skel_cases;
   Printf.printf "CASES %d COMPARED %d MISMATCHES %d\n" !cases !compared !mismatches
